@@ -419,14 +419,18 @@ def gen_lifecycle(rng):
     # teardown: everything the applications hold is dropped, then quiescence
     for c in list(pending):
         sc.add(["poll_connect", c])
-    if rng.random() < 0.85:
-        for x in pending + streams + listeners:
-            sc.add(["close", x])
-    sc.clean(rng.choice([3, 25]), 4)
-    sc.add(["netstat", 0], ["netstat", 1], ["counts", 0], ["counts", 1])
+    closed_all = rng.random() < 0.85
+    if closed_all:
+        for x in range(sc.next_slot):          # every slot ever handed out (already closed ones answer `noslot`)
+            sc.add(["cancel", x], ["close", x])
+    rounds = (cfg["retx_max"] + 2) * (cfg["retx_threshold"] + 1) + 6 if rng.random() < 0.8 else 3
+    for _ in range(rounds):
+        sc.add(E, ["flush"])
+    sc.add(["netstat", 0], ["netstat", 1], ["counts", 0], ["counts", 1], ["rows", 0], ["rows", 1])
     l3 = sc.slot()
     sc.add(["listen", l3, 1, 3, port], ["counts", 1])
-    return {"cfg": cfg, "script": sc.s, "flavour": "lifecycle"}
+    return {"cfg": cfg, "script": sc.s, "flavour": "lifecycle",
+            "plan": {"closed_all": closed_all, "settled": rounds > 3, "port": port, "final_listen": l3}}
 
 
 def gen_caps(rng):
